@@ -308,7 +308,15 @@ func literalInt(e sql.Expr) (int64, bool) {
 	switch lit := e.(type) {
 	case *sql.NumberLit:
 		v := strings.ReplaceAll(lit.Value, "_", "")
-		if n, err := strconv.ParseInt(v, 0, 64); err == nil {
+		// SQLite knows decimal and 0x hexadecimal integers only; a leading zero
+		// does not make a literal octal.
+		if len(v) > 2 && (v[:2] == "0x" || v[:2] == "0X") {
+			if n, err := strconv.ParseInt(v[2:], 16, 64); err == nil {
+				return n, true
+			}
+			return 0, false
+		}
+		if n, err := strconv.ParseInt(v, 10, 64); err == nil {
 			return n, true
 		}
 		if f, err := strconv.ParseFloat(v, 64); err == nil && !math.IsNaN(f) && math.Abs(f) < 1e18 {
